@@ -18,20 +18,21 @@ import (
 )
 
 type Case struct {
-	Prog    string   `json:"prog"`
-	Seg     uint64   `json:"seg"`
-	Prod    bool     `json:"prod"`
-	Start   uint64   `json:"start"`
-	Stop    uint64   `json:"stop"`
-	Final   int64    `json:"final"`
-	Workers int      `json:"workers"`
-	Cache   string   `json:"cache"`          // empty | complete | subset:<mask>
-	Cap     int      `json:"cap"`            // multiplicity cap of idempotent messages in the state key (0 = exact)
-	Path    []string `json:"path,omitempty"` // artefact: the event path to replay
+	Prog        string   `json:"prog"`
+	Seg         uint64   `json:"seg"`
+	Prod        bool     `json:"prod"`
+	Start       uint64   `json:"start"`
+	Stop        uint64   `json:"stop"`
+	Final       int64    `json:"final"`
+	Workers     int      `json:"workers"`
+	Cache       string   `json:"cache"`                  // empty | complete | subset:<mask>
+	Cap         int      `json:"cap"`                    // multiplicity cap of idempotent messages in the state key (0 = exact)
+	PartialWins bool     `json:"partial_wins,omitempty"` // squasher load race: the partial wins although the full snapshot exists
+	Path        []string `json:"path,omitempty"`         // artefact: the event path to replay
 }
 
 func (c Case) String() string {
-	return fmt.Sprintf("%s seg=%d prod=%v [%d,%d) final=%d workers=%d cache=%s cap=%d", c.Prog, c.Seg, c.Prod, c.Start, c.Stop, c.Final, c.Workers, c.Cache, c.Cap)
+	return fmt.Sprintf("%s seg=%d prod=%v [%d,%d) final=%d workers=%d cache=%s cap=%d", c.Prog, c.Seg, c.Prod, c.Start, c.Stop, c.Final, c.Workers, c.Cache, c.Cap) + map[bool]string{true: " partial-wins", false: ""}[c.PartialWins]
 }
 
 var programs = map[string]func() *progs.Prog{
@@ -54,7 +55,7 @@ func buildConfig(c Case) (*schedx.Config, *progs.Prog, error) {
 		return nil, nil, fmt.Errorf("unknown program %q", c.Prog)
 	}
 	p := mk()
-	cfg := &schedx.Config{Modules: p.Modules, Output: p.Output, Prod: c.Prod, Seg: c.Seg, Start: c.Start, Stop: c.Stop, Final: c.Final, Workers: c.Workers, Cap: c.Cap}
+	cfg := &schedx.Config{Modules: p.Modules, Output: p.Output, Prod: c.Prod, Seg: c.Seg, Start: c.Start, Stop: c.Stop, Final: c.Final, Workers: c.Workers, Cap: c.Cap, PartialWins: c.PartialWins}
 	if strings.HasPrefix(c.Cache, "c07mask:") {
 		// a cache state of the C07 universe of the same request: files of a complete run + partials of jobs run alone
 		var mask uint64
@@ -304,6 +305,22 @@ func Run(ctx *core.Ctx) int {
 			add("storemap-0-0", 2, true, 1, 4, 4, []int{2}, []string{fmt.Sprintf("subset:%d", mask)})
 		}
 		budget = 25 * time.Minute
+		// the exact multiset (no coalescing) and the other outcome of the squasher's load race, on the quick grids
+		n := len(cases)
+		for i := 0; i < n; i++ {
+			c := cases[i]
+			if strings.HasPrefix(c.Cache, "subset:") {
+				continue
+			}
+			if c.Workers <= 2 && c.Stop <= 9 && c.Cap != 0 {
+				e := c
+				e.Cap = 0
+				cases = append(cases, e)
+				pw := c
+				pw.PartialWins = true
+				cases = append(cases, pw)
+			}
+		}
 	}
 	// every store starts at or above the hand-off (the store stages only have NoOp units)
 	add("storemap-3-1", 2, true, 1, 2, -1, w12, []string{"empty"})
